@@ -234,7 +234,7 @@ def build_and_run(tc, program, schedule, depth=0):
     exe, e = tc.link(cfg, line, tag)
     if e:
         return {"failures": [], "infra": e, "observed": 0}
-    items = {it["id"]: it for tu in program["tus"] if tu["role"] == "user" for it in tu["items"] if "id" in it}
+    items = {it["id"]: dict(it, home=tu["name"]) for tu in program["tus"] if tu["role"] == "user" for it in tu["items"] if "id" in it}
     for it in list(items.values()):
         if it.get("form") == "wrapped" and it.get("twin"):
             items[it["id"] + gen.TWIN] = dict(it, id=it["id"] + gen.TWIN, form="wrapped", twin_of=it["id"], note=it.get("note", "") + " [from %s]" % ("inline variable" if it["twin"] == "inline" else "static inline data member"))
@@ -305,7 +305,7 @@ def sig(rc):
 
 
 def mk_failure(it, cls, res, schedule, pre=None, main=None):
-    f = {"probe": it["id"], "class": cls, "facility": it.get("facility", "unknown"), "kind": it.get("kind", "unknown"),
+    f = {"home": it.get("home"), "probe": it["id"], "class": cls, "facility": it.get("facility", "unknown"), "kind": it.get("kind", "unknown"),
          "form": it.get("form"), "note": it.get("note", ""), "compiler": compiler_family(schedule["cfg"]),
          "detail": res.get("stderr_tail", ""), "schedule": schedule}
     if pre is not None:
@@ -318,7 +318,11 @@ def vclass(f):
     """violation class used for grouping, minimisation and known-finding matching"""
     c = f["class"].split(":")[0]
     fac = "public-api-call" if f.get("kind") == "api" else f["facility"]
-    return (f["compiler"], fac, c)
+    cfg = f.get("schedule", {}).get("cfg")
+    lto = isinstance(cfg, dict) and "-flto" in cfg.get("opt", [])
+    order = [n for n in f.get("schedule", {}).get("order", []) if n != "main"]
+    pos = "+user-tu-not-first" if (f.get("home") is not None and order and order[0] != f.get("home")) else ""
+    return (f["compiler"] + ("+lto" + pos if lto else ""), fac, c)
 
 
 # ------------------------------------------------------------------------------- plan generation
@@ -509,8 +513,17 @@ def minimise(tc, program, failure, budget=40):
 
 # ------------------------------------------------------------------------------- batch driver
 def known_match(f):
+    sch = f.get("schedule", {})
+    cfg = sch.get("cfg")
+    opts = " ".join(cfg["opt"]) if isinstance(cfg, dict) else str(cfg or "")
+    order = [n for n in sch.get("order", []) if n != "main"]
+    home = f.get("home")
     for k in common.known_findings(PROP):
         if k.get("compiler") not in (None, f["compiler"]):
+            continue
+        if "flags" in k and k["flags"] not in opts.split():
+            continue
+        if k.get("position") == "user-tu-not-first" and not (home is not None and order and order[0] != home):
             continue
         if k.get("facility") not in (None, f["facility"]):
             continue
@@ -604,6 +617,9 @@ def main(tier, seed, only=None):
         api_thread = threading.Thread(target=lambda: api_box.update(api_sweep(seed, thorough)))
         api_thread.start()
     configs = CONFIGS_QUICK + (CONFIGS_EXTRA if thorough else [])
+    if os.environ.get("VERIF_C19_CONFIGS"):   # tooling only: restrict to the named configurations, e.g. "clang++ -O2 -flto"
+        want = [w.strip() for w in os.environ["VERIF_C19_CONFIGS"].split(",")]
+        configs = [c for c in CONFIGS_QUICK + CONFIGS_EXTRA if cfg_name(c) in want]
     configs = [c for c in configs if shutil.which(c["cxx"])]
     groups = int(os.environ.get("VERIF_C19_GROUPS", "16"))
     programs = covering_programs(cat, rng, groups)
